@@ -401,7 +401,9 @@ func c14One(ctx *core.Ctx, tag string, m *ref.Model, thorough bool) {
 					re := reencodeJSON(js, enc)
 					var dp *string
 					var e error
-					pn := guard(func() { dp, e = transformer.TransformJSONStringToDSL(string(re), transformer.WithIncludeSourceInformation(src)) })
+					pn := guard(func() {
+						dp, e = transformer.TransformJSONStringToDSL(string(re), transformer.WithIncludeSourceInformation(src))
+					})
 					if pn != nil || e != nil || dp == nil {
 						ctx.Violation("json-encoding-rejected", fmt.Sprintf("%s: JSON encoding %d rejected: %v %v\n%s", tag, enc, e, pn, re), c, "", "")
 						return
@@ -497,7 +499,7 @@ func c14FailingVariants(pm *openfgav1.AuthorizationModel) []*openfgav1.Authoriza
 		deep := ref.U(ref.C("ok"), ref.I(ref.C("ok"), ref.U(ref.C("ok"), ref.T())))
 		m.TypeDefinitions = append(m.TypeDefinitions, &openfgav1.TypeDefinition{Type: "zzz_type",
 			Relations: map[string]*openfgav1.Userset{"ok": ref.UsersetProto(ref.C("zz")), "zz": ref.UsersetProto(deep)},
-			Metadata: &openfgav1.Metadata{Relations: map[string]*openfgav1.RelationMetadata{"zz": {DirectlyRelatedUserTypes: []*openfgav1.RelationReference{{Type: "user"}}}}}})
+			Metadata:  &openfgav1.Metadata{Relations: map[string]*openfgav1.RelationMetadata{"zz": {DirectlyRelatedUserTypes: []*openfgav1.RelationReference{{Type: "user"}}}}}})
 	})
 	// the same two, attributed to a module that sorts last (a modular model puts unattributed items first)
 	mk(func(m *openfgav1.AuthorizationModel) {
